@@ -82,6 +82,30 @@ Definition check_mappings (s : mstate) : bool :=
   forallb (fun m => qltb check_tol (row_sum (p2m_int s) m)) (seq 0 (n_mortar s)) &&
   forallb (fun m => qltb check_tol (row_sum (s2m_int s) m)) (seq 0 (n_mortar s)).
 
+(* project_to_side_grids: for every side (in the order of side_grids) the matrix that picks
+   its cells out of all mortar cells; the column offset is the running count of the cells of
+   the preceding sides *)
+Fixpoint proj_blocks (counter : nat) (gs : list (list cell)) : list mat :=
+  match gs with
+  | [] => []
+  | g :: rest =>
+      map (fun r => (r, (r + counter)%nat, 1)) (seq 0 (length g))
+      :: proj_blocks (counter + length g) rest
+  end.
+Definition project_to_side_grids (s : mstate) : list mat := proj_blocks 0 (sides s).
+
+(* sign_of_mortar_sides (nd = 1): the diagonal; one side: ones; two sides: -1 on the cells of
+   the LEFT side grid, +1 on those of the RIGHT one (side_grids is ordered LEFT, RIGHT) *)
+Definition sign_of_mortar_sides (s : mstate) : list Q :=
+  match sides s with
+  | [l; r] => repeat (- (1)) (length l) ++ repeat 1 (length r)
+  | _ => repeat 1 (n_mortar s)
+  end.
+
+(* MortarGrid.cell_volumes = hstack of the side grids' cell volumes (1-D side grids) *)
+Definition mortar_cell_volumes (nrm : Q) (s : mstate) : list Q :=
+  map (cell_vol nrm) (concat (sides s)).
+
 (* ---------------- _init_projections ---------------- *)
 (* a triple of sparse_array_to_row_col_data(primary_secondary): (secondary, primary, data) *)
 Definition triple := (nat * nat * Q)%type.
@@ -344,22 +368,31 @@ Definition mat_close (a b : mat) : bool :=
   forallb (fun e => qclose (mget a (erow e) (ecol e)) (mget b (erow e) (ecol e))) b.
 
 (* the eight projection matrices of the implementation, as coordinate lists *)
-Definition dump := list mat.
-Definition state_close (s : mstate) (d : dump) : bool :=
-  match d with
-  | [a1; a2; a3; a4; a5; a6; a7; a8] =>
-      mat_close (p2m_int s) a1 && mat_close (p2m_avg s) a2 &&
-      mat_close (s2m_int s) a3 && mat_close (s2m_avg s) a4 &&
-      mat_close (m2p_int s) a5 && mat_close (m2p_avg s) a6 &&
-      mat_close (m2s_int s) a7 && mat_close (m2s_avg s) a8
-  | _ => false
+(* the implementation's answer: the eight projection matrices, the matrices of
+   project_to_side_grids, the diagonal of sign_of_mortar_sides and (1-D) cell_volumes *)
+Definition dump := (list mat * list mat * list Q * option (list Q))%type.
+Definition state_close (nrm : Q) (s : mstate) (d : dump) : bool :=
+  let '(mats, projs, sgn, vols) := d in
+  (match mats with
+   | [a1; a2; a3; a4; a5; a6; a7; a8] =>
+       mat_close (p2m_int s) a1 && mat_close (p2m_avg s) a2 &&
+       mat_close (s2m_int s) a3 && mat_close (s2m_avg s) a4 &&
+       mat_close (m2p_int s) a5 && mat_close (m2p_avg s) a6 &&
+       mat_close (m2s_int s) a7 && mat_close (m2s_avg s) a8
+   | _ => false
+   end) &&
+  list_eqb (list_eqb entry_eqb) (project_to_side_grids s) projs &&
+  list_eqb Qeq_bool (sign_of_mortar_sides s) sgn &&
+  match vols with
+  | Some v => list_eqb qclose (mortar_cell_volumes nrm s) v
+  | None => true
   end.
 
-Definition res_close (r : merr + mstate) (d : merr + dump) : bool :=
+Definition res_close (nrm : Q) (r : merr + mstate) (d : merr + dump) : bool :=
   match r, d with
   | inl MIndexErr, inl MIndexErr => true
   | inl MValueErr, inl MValueErr => true
-  | inr s, inr x => state_close s x
+  | inr s, inr x => state_close nrm s x
   | _, _ => false
   end.
 
@@ -374,9 +407,9 @@ Definition agree_hist (nrm tol : Q) (side_grids : list (list cell)) (np ns : nat
            (ps : list triple) (fdi : option (list nat)) (ops : list op)
            (impl : list (merr + dump)) : bool :=
   match init_projections side_grids np ns ps fdi, impl with
-  | inl e, [d] => res_close (inl e) d
+  | inl e, [d] => res_close nrm (inl e) d
   | inr s0, d0 :: ds =>
-      res_close (inr s0) d0 && all2 res_close (run nrm tol s0 ops) ds &&
+      res_close nrm (inr s0) d0 && all2 (res_close nrm) (run nrm tol s0 ops) ds &&
       forallb op_contract ops
   | _, _ => false
   end.
